@@ -279,3 +279,25 @@ Proof. intros Hc.
   assert (He : exists_geff k (s_root (init pre)) = false).
   { pose proof (check_for_geff_clean k pre Hc) as H. rewrite check_for_geff_spec in H. inversion H. reflexivity. }
   rewrite (api_fresh k g md v ov (init pre) He). exact (crash_clean k pre g md v ov Hc). Qed.
+
+(* ---------- C05: a write whose RESULT is rejected by structural validation, as a statement about write_arrays itself ---------- *)
+(* whatever the input: if the arrays and the metadata could be written (write_body succeeds and leaves the group ZG a ch) and
+   structural validation rejects the committed state with ValueError, then write_arrays raises ValueError and ends in `cleaned`:
+   nodes, edges and the geff attribute are gone, every other member and attribute is as before (cleaned_frame) *)
+Theorem write_arrays_rejected k pre g md md' ov a ch tr1 :
+  exists_geff k pre = false ->
+  write_body g md (init pre) = (mkst (Some (ZG a ch)) tr1, Ok md') ->
+  validate_structure k (Some (ZG (aset "geff" (AGeff (Some md')) a) ch)) = Err ValueError ->
+  exists tr, write_arrays k g md true ov (init pre)
+             = (mkst (cleaned k (aset "geff" (AGeff (Some md')) a) ch) tr, Err ValueError).
+Proof.
+  intros Hex Hb Hv. rewrite write_arrays_eq. unfold bind at 1. rewrite (guard_skip k ov (init pre) Hex).
+  unfold write_core. unfold bind at 1. rewrite Hb. unfold bind at 1.
+  unfold write_metadata. unfold bind at 1. rewrite (setup_group_ok (mkst (Some (ZG a ch)) tr1) a ch eq_refl).
+  unfold set_root. cbn [s_trace s_root set_attr].
+  set (s2 := mkst (Some (ZG (aset "geff" (AGeff (Some md')) a) ch)) (Some (ZG (aset "geff" (AGeff (Some md')) a) ch) :: tr1)).
+  assert (Hg : ahas "geff" (aset "geff" (AGeff (Some md')) a) = true).
+  { apply ahas_true. exists (AGeff (Some md')). apply alookup_aset_same. }
+  destruct (tail_reject k s2 (aset "geff" (AGeff (Some md')) a) ch eq_refl Hg Hv) as [tr Ht].
+  exists tr. exact Ht.
+Qed.
